@@ -218,6 +218,10 @@ for _pid, _subs in _STALE6.items():
 extend("C18", "reload: after any history in the bound of Set / Remove / SetBatch / RemoveBatch over entries that cover one another, what the real snapshot+persist code wrote to <dir>/local is read back by the real loadInitial / readBlocklists / parseHostFile into exactly the in-memory list, entry for entry (file system and line scanner replaced by a lines-in, lines-out model).")
 extend("C14", "RRSIG check: verifySignature vs the library's RRSIG.Verify with the Ed25519 verifier replaced by a recorder - identical key, signature and signed octets (canonical owner with wildcard restoration for every Labels value, original TTL, lower-cased embedded names, RDATA order, duplicate collapse), acceptance only if the library accepts, refusal of a library-accepted signature only where the signer is no label-wise ancestor of the owner.", "Ed25519 arithmetic is a recording stub with one symbolic verdict; RSA/ECDSA dispatch is outside.")
 
+extend("C13", "one probe generation after expiry: FailureCache.RetryKey yields a key exactly when no matching failure is active and some matching one has expired, never for a query Lookup serves, the key of the closest expired ancestor-zone failure else the question's own - so different names below one failed authority share the probe - and a failure in another class plays no part.")
+
+extend("C17", "internal queries and client policy: ratelimit.ServeDNS and reflex.ServeDNS let a resolver-internal sub-query continue exactly once without a reply and without touching any per-client state (every qtype, source address, cookie shape); and Pipeline.autoWire hands the consumers of internal queries pipelines that contain no handler declaring itself client-only, for every combination of handlers that do.")
+
 NA_REASON = "no check registered yet: the solver-based harness for this property is still being built in this session (see DESIGN.md §5 for the plan)"
 def main():
     props = [json.loads(l) for l in open(os.path.join(ROOT, "properties.jsonl"))]
